@@ -330,6 +330,21 @@ fn gen_c07(seed: u64, tier: Tier) -> ResolvePlan {
             );
         }
     }
+    // a question asked again around the moment its answer leaves the cache, on a
+    // machine that is held up now and then between two clock reads (fault
+    // `clock.stall`): what the cache still gives out then is the whole record
+    // set or nothing
+    if !questions.is_empty() && r.chance(0.4) {
+        knobs.faults.insert("clock.stall".into(), *r.pick(&[0.005, 0.02, 0.08]));
+        let ttl = u64::from(*r.pick(&opts.ttl_choices));
+        let at = r.below(questions.len() as u64) as usize;
+        let again = QuestionPlan {
+            gap_ms: (ttl * 1000 + *r.pick(&[0u64, 200, 500, 900])).saturating_sub(*r.pick(&[1000u64, 1000, 1300, 2000])),
+            prune_before: false,
+            ..questions[at].clone()
+        };
+        questions.insert(at + 1, again);
+    }
     ResolvePlan {
         knobs,
         hints_auto: true,
@@ -409,7 +424,7 @@ pub fn depends_on_dead_delegation(plan: &ResolvePlan, obs: &Observations, q: &QO
             e.acceptable()
                 && e.reply.as_ref().is_some_and(|m| {
                     m.answers.iter().chain(m.additional.iter()).any(|rr| {
-                        u64::from(rr.ttl) * 1000 >= ends_ms.saturating_sub(e.at_ms) + 2000
+                        u64::from(rr.ttl) * 1000 >= ends_ms.saturating_sub(e.at_ms) + 2000 + q.stall_ms
                             && universe::names_equal(&rr.name.to_dotted_string(), host)
                             && match rr.rtype_with_data {
                                 RecordTypeWithData::A { .. } => v4_ok,
@@ -546,6 +561,7 @@ pub fn compare_with_expected(
     u: &Universe,
     q: &QObs,
     dead_delegation: bool,
+    expired_in_hand: bool,
     vs: &mut Vec<Violation>,
     detail: &dyn Fn() -> Value,
 ) {
@@ -568,7 +584,8 @@ pub fn compare_with_expected(
                 Violation::new("c07.resolution_failed")
                     .fact("error", err.to_string().split('\'').next().unwrap_or("").trim())
                     .fact("dead_delegation_in_cache", dead_delegation)
-                    .detail(json!({"q": qfacts(q), "run": detail()})),
+                    .fact("record_expired_during_clock_stall", expired_in_hand)
+                    .detail(json!({"q": qfacts(q), "stall_ms": q.stall_ms, "run": detail()})),
             );
             return;
         }
@@ -647,7 +664,37 @@ fn oracle_c07(plan: &ResolvePlan, obs: &Observations) -> RunResult {
         }
         let detail = || json!({ "exchanges": exchange_summary(obs, q) });
         let dead = q.result.is_err() && depends_on_dead_delegation(plan, obs, q);
-        compare_with_expected(&plan.universe, q, dead, &mut res.violations, &detail);
+        // the process was held up (fault `clock.stall`) and a name-server or address
+        // record received in this resolution had less than a second left before it
+        // could be used: referrals reach the next step through the cache, which
+        // serves nothing in its last second
+        let expired_in_hand = q.result.is_err() && q.stall_ms > 0 && {
+            let exs = &obs.exchanges[q.exchanges.clone()];
+            let ends_ms = exs.iter().map(|e| e.at_ms + e.delay_ms).max().unwrap_or(0);
+            let ns_or_address = |rr: &ResourceRecord| {
+                matches!(
+                    rr.rtype_with_data,
+                    RecordTypeWithData::NS { .. } | RecordTypeWithData::A { .. } | RecordTypeWithData::AAAA { .. }
+                )
+            };
+            exs.iter().any(|e| {
+                e.reply.as_ref().is_some_and(|m| {
+                    m.answers.iter().chain(m.authority.iter()).chain(m.additional.iter()).any(|rr| {
+                        ns_or_address(rr) && u64::from(rr.ttl) * 1000 < ends_ms.saturating_sub(e.at_ms) + q.stall_ms + 1000
+                    })
+                })
+            })
+            // ... or one the cache held, still usable, when the resolution began
+            || q.cache_before.iter().any(|c| {
+                ns_or_address(&c.rr)
+                    && c.remaining_ns >= 1_000_000_000
+                    && c.remaining_ns < (q.elapsed_ms + q.stall_ms + 1000) * 1_000_000
+            })
+        };
+        if expired_in_hand {
+            bump(&mut res.stats, "probe.failed_with_a_record_expired_in_hand_during_a_stall");
+        }
+        compare_with_expected(&plan.universe, q, dead, expired_in_hand, &mut res.violations, &detail);
         // bounded liveness: no timeout in a fault-free run
         let n_ex = q.exchanges.len() as u64;
         // per exchange: a few one-way latencies plus TCP segment dribbling
